@@ -86,6 +86,22 @@ fn concrete_edit(src: &str, shape: &Value, rng: &mut Rng) -> (usize, usize, Stri
       return (s, e - s, name.to_string());
     }
   }
+  if kind == 7 && bounds.len() > 8 {
+    // replace a short window W by W M W (or, when the text already has W M W, by W): what is deleted and what is
+    // inserted share a head and a tail that overlap
+    let i = rng.below(bounds.len() - 4);
+    let l = 1 + rng.below(3);
+    let (ws, we) = (bounds[i], bounds[(i + l).min(bounds.len() - 1)]);
+    let w = &src[ws..we];
+    if !w.is_empty() && !w.contains('\n') {
+      let m = *rng.pick(&[", ", " + ", "", " b, c, "]);
+      let grown = format!("{w}{m}{w}");
+      if src[ws..].starts_with(&grown) && rng.chance(1, 2) {
+        return (ws, grown.len(), w.to_string());
+      }
+      return (ws, w.len(), if rng.chance(1, 3) { format!("{grown}{m}{w}") } else { grown });
+    }
+  }
   if kind < 9 {
     // in-place replacement of the same length that changes what the text means: the edit moves nothing, but
     // the old tree must still be told (identifier <-> number, operator, keyword swaps)
